@@ -17,7 +17,8 @@ META = dict(
     level='other',
     explanation="link_layer<>::handle_ll_control_data and handle_pending_ll_control (link_layer.hpp, real bodies, every PDU, every connection event counter incl. wrap around): an "
                 "LL_CONNECTION_UPDATE_IND / LL_CHANNEL_MAP_REQ is kept pending, with the instant it carries, only if that instant is not before the next connection event "
-                "(modulo 2^16); otherwise the link layer result is 'disconnect' with reason 0x28 (instant passed); neither is answered. handle_pending_ll_control( e ) applies "
+                "(modulo 2^16); otherwise the link layer result is 'disconnect' with reason 0x28 (instant passed); neither is answered. The same holds for an LL_PHY_UPDATE_IND "
+                "that handle_phy_request keeps for its instant; whatever is pending when handle_ll_control_data returns has an instant that can still be met. handle_pending_ll_control( e ) applies "
                 "a pending indication exactly when e equals its instant - channel map reset with the map octets of that PDU, connection update parsed from that PDU's body "
                 "(state connection_changed and the changed call back, or disconnect if the parameters are invalid, C22) - and clears it; for any other e nothing happens. "
                 "plan_next_connection_event (peripheral_latency.hpp, contract in C23.py) never advances the event counter beyond a pending instant. Together: the block "
@@ -26,8 +27,8 @@ META = dict(
                 "plan_next_connection_event, then handle_pending_ll_control is asked with the event counter AFTER planning, then the event is set up (or the link ends). "
                 "phy_update_request_impl::handle_phy_request (real body): a valid LL_PHY_UPDATE_IND is kept pending with the instant it carries (or reported at once if no PHY "
                 "changes), never answered.",
-    assumptions=["NOT extracted: handle_received_data (the early return while an indication is pending is read, not proved), handle_pending_phy_request; an LL_PHY_UPDATE_IND whose "
-                 "instant has passed is NOT checked by handle_phy_request (no 'instant passed' for PHY updates) - not claimed",
+    assumptions=["NOT extracted: handle_received_data (the early return while an indication is pending is read, not proved), handle_pending_phy_request; in handle_ll_control_data "
+                 "handle_phy_request is a stand-in that follows its contract proved in unit events (it keeps only an LL_PHY_UPDATE_IND, with the instant it carries)",
                  "the PDU layout is the default one; callees (channel map, timing parameter parser, call backs) abstract with symbolic results"],
     trusted_base=["radio / event scheduling"],
 )
